@@ -60,7 +60,7 @@ def plain_subclass_probe(chk, extra):
 
 
 def targeted(chk, cases, bad, extra):
-    n = 300 if chk.tier == "quick" else 4500
+    n = 220 if chk.tier == "quick" else 4500
     n_ops = 6 if chk.tier == "quick" else 9
     mine = [c08_gen.sanitize(c08_gen.gen_case_c08(chk.rng, n_ops)) for _ in range(n)]
     c02_gen.report(chk, "C08", 32 | 128, mine, extra, "reset_histories", sig_fn=c08_gen.same_signature)
@@ -73,4 +73,4 @@ def targeted(chk, cases, bad, extra):
 def main(tier, replay=None):
     if replay:
         return inst_check.replay("C08", replay, 32 | 128)
-    return inst_check.run("C08", tier, 32 | 128, GENS, 120, 2500, ASSUMPTIONS, post=targeted)
+    return inst_check.run("C08", tier, 32 | 128, GENS, 90, 2500, ASSUMPTIONS, post=targeted)
